@@ -45,7 +45,12 @@ for _kind, _sib in [("simple", "g: 4"), ("comparison", "g: > 0"), ("range", "g: 
                     ("tuple", "t: (3, _)"), ("set", "xs: #(10, ..)"), ("map", 'm: #{{ "a": 1, .. }}'), ("closure", "g: |x| *x > 0"),
                     ("like", "g: =~ Num(4)"), ("index", "xs[0]: 10"), ("method", "xs.len(): 3"), ("wildcard-struct", "t: _ {{ 0: 3, .. }}")]:
     HELPER_HOLES.append(("cmp-operand-after-" + _kind, "S {{ " + _sib + ", f: == {N}, .. }}", "3i32", PLAIN_NAMES))
-    HELPER_HOLES.append(("elem-operand-after-" + _kind, "S {{ " + _sib + ", o: Some(== {N}), .. }}", "3i32", ["actual", "expected", "value"]))
+# a user expression INSIDE each composite template (whatever the template binds around its elements must not be visible)
+for _kind, _templ, _val in [("slice", "S {{ xs: [== {N}, ..], .. }}", "99i32"), ("slice-closure", "S {{ xs: [|x| *x == {N} - 89, ..], .. }}", "99i32"),
+                            ("tuple", "S {{ t: (== {N}, _), .. }}", "99i32"), ("variant", "S {{ o: Some(== {N}), .. }}", "99i32"),
+                            ("set", "S {{ xs: #(== {N}, ..), .. }}", "99i32"), ("map", 'S {{ m: #{{ "a": == {N}, .. }}, .. }}', "99i32"),
+                            ("wildcard-struct", "S {{ t: _ {{ 0: == {N}, .. }}, .. }}", "99i32"), ("nested-slice", "S {{ o: Some(== {N}), xs: [10, ..], .. }}", "99i32")]:
+    HELPER_HOLES.append(("operand-inside-" + _kind, _templ, _val, PLAIN_NAMES))
 
 
 def make_cases(rng, _n):
